@@ -420,6 +420,27 @@ def c16(ctx):
                   exhaustive=True)
 
 
+# ----------------------------------------------------------------------------- C19
+@prop("C19")
+def c19(ctx):
+    kinds = ["sign1", "sign1u", "sign", "sig", "csig", "prot", "unprot"]
+    consts = dict(MaxLen=3 if ctx.quick() else 4, DecKinds=tlaset(kinds))
+    cases = gen(ctx, "Gen_C19", cfgtext(invariants=["ImagesAsIntended", "Emit"], constants=consts), timeout=3000, heap="8g")
+    if not ctx.quick():
+        cases += gen(ctx, "Gen_C19", cfgtext(invariants=["Emit"], constants=dict(MaxLen=5, DecKinds=tlaset(["sign", "sign1"]))), timeout=3000, heap="12g")
+    events = harness(ctx, ["exec", "memflow"], cases, env=dict(VERIF_SERIAL="1"))
+    rejects = judge(ctx, "Trace_C19", events, per_shard=600)
+    return report(ctx, events, rejects,
+                  nontrivial=lambda e: sum(1 for o in e["obs"] if o["op"] == "unmarshal") >= 1,
+                  key=lambda e: (e["kind"], tuple(e["h"])),
+                  rule="TLC enumerates every history of the given length over the alphabet {decode valid A, decode valid B (other shape: nil payload, 3 signatures, "
+                       "nested countersignatures), decode failing early / in the middle / late, overwrite the last input buffer, serialise, overwrite the last "
+                       "output and serialise again} into one destination variable, for each of the 7 decoders; after every step the destination is projected "
+                       "(nil vs empty distinguished, raw bytes included) and each successful decode is also done into a fresh variable; TLC walks every history "
+                       "and judges history-freedom, atomicity and absence of aliasing",
+                  exhaustive=True)
+
+
 def setup():
     ctx = Ctx("setup", "quick", 1)
     try:
